@@ -15,13 +15,18 @@ POLY = ("hull", "box", "sphere", "capsule")
 
 class Body:
     def __init__(self, spec, M, t, margin=0, cls=None):
-        self.spec, self.M, self.t, self.margin, self.cls = spec, np.array(M, dtype=int), np.array(t, dtype=int), int(margin), cls
+        self.spec, self.M, self.margin, self.cls = spec, np.array(M, dtype=int), int(margin), cls
+        tt = np.array(t, dtype=float)
+        self.lattice = bool(np.all(tt == np.round(tt)))
+        self.t = tt.astype(int) if self.lattice else tt
         self.R = self.M.astype(float)
 
     def core(self):
         """(integer world-lattice vertices of the core polytope, integer radius) or None for round shapes"""
         s = self.spec
         k = s["kind"]
+        if not self.lattice:
+            return None
         if k == "hull":
             V, r = s["V"], 0
         elif k == "box":
@@ -268,7 +273,7 @@ def center_local(spec):
     return np.zeros(3)
 
 
-def float_flags(A, B, tolL_lat):
+def float_flags(A, B, tolL_lat, extra=None):
     """(floatOverlap, floatGap) established by construction-independent sufficient conditions"""
     cA = A.t + A.R @ center_local(A.spec)
     cB = B.t + B.R @ center_local(B.spec)
@@ -276,10 +281,22 @@ def float_flags(A, B, tolL_lat):
     ov = (inradius_center(A.spec) + A.margin >= 10 * tolL_lat) and (inradius_center(B.spec) + B.margin - dist >= 10 * tolL_lat)
     ov = ov or ((inradius_center(B.spec) + B.margin >= 10 * tolL_lat) and (inradius_center(A.spec) + A.margin - dist >= 10 * tolL_lat))
     gap = False
+    cand = [] if extra is None else [np.asarray(extra, dtype=float)]
     if dist > 0:
-        n = (cB - cA) / dist
-        g = -B.support(-n) - A.support(n)
-        gap = g >= 10 * tolL_lat
+        cand.append((cB - cA) / dist)
+    for Bd in (A, B):
+        for i in range(3):
+            cand.append(Bd.R[:, i])
+    for i in range(3):
+        for j in range(3):
+            c = np.cross(A.R[:, i], B.R[:, j])
+            if np.linalg.norm(c) > 1e-9:
+                cand.append(c / np.linalg.norm(c))
+    for n in cand:
+        for sgn in (1.0, -1.0):
+            nn = sgn * n
+            if -B.support(-nn) - A.support(nn) >= 10 * tolL_lat:
+                gap = True
     return bool(ov), bool(gap)
 
 
@@ -308,6 +325,11 @@ def random_lift(rng, A, B, kind):
     s = min(max(s, smin), smax)
     Rg = S.random_rotation(rng)
     tg = np.array([rng.uniform(-1, 1) for _ in range(3)]) * rng.choice((0.0, 1.0, 30.0, 300.0))
+    if kind == "farsmall":
+        # small scene far from the origin (absolute tolerances vs. large coordinates)
+        s = min(max(10 ** rng.uniform(-1.7, -0.5), smin), smax)
+        tg = np.array([rng.choice((-1, 1)) * rng.uniform(300, 900) for _ in range(3)])
+        tg = tg * min(1.0, (990.0 - s * far * 1.8) / float(np.linalg.norm(tg)))
     return (s, Rg, tg)
 
 
@@ -317,6 +339,45 @@ def _minfeat(body):
         V = np.array(s["V"], dtype=float)
         return max(1.0, float(np.min([np.linalg.norm(V[i] - V[j]) for i in range(len(V)) for j in range(i)])))
     return float(min(v for k, v in s.items() if k not in ("kind", "name")))
+
+
+def gen_prim_scenes(rng, n, kinds=("sphere", "capsule", "box", "ellipsoid", "cylinder")):
+    """pairs of primitives at lattice-aligned poses with half-lattice offsets (many exactly parallel /
+    perpendicular configurations), for the algorithms that accept primitives only"""
+    cat = [s for s in S.catalogue() if s["kind"] in kinds]
+    out = []
+    for _ in range(n):
+        pa, pb = rng.choice(cat), rng.choice(cat)
+        MA, _ = rng.choice(S.CUBE)
+        MB, _ = rng.choice(S.CUBE)
+        tA = [rng.randint(-2, 2) for _ in range(3)]
+        reach = int(math.ceil((S.feature_size(pa) + S.feature_size(pb)) / 2)) + 1
+        if rng.random() < 0.5:
+            off = [rng.randint(-reach, reach) for _ in range(3)]
+        else:
+            # continuous offsets, often zero along one or two axes (aligned centres)
+            off = [0.0 if rng.random() < 0.3 else rng.uniform(-reach, reach) for _ in range(3)]
+        out.append((Body(pa, MA, tA, 0), Body(pb, MB, [tA[i] + off[i] for i in range(3)], 0)))
+    return out
+
+
+def graze(A, B, rng, delta_lat, ks=None):
+    """B shifted along a direction u so that the slab gap of the pair along u is +k*delta (clear gap, certified
+    by u itself) or -k*delta (overlap along u; whether it is a deep overlap is decided by deep_overlap)"""
+    cA = A.t + A.R @ center_local(A.spec)
+    cB = B.t + B.R @ center_local(B.spec)
+    dirs = [A.R[:, i] for i in range(3)] + [B.R[:, i] for i in range(3)]
+    if np.linalg.norm(cB - cA) > 0:
+        dirs.append((cB - cA) / np.linalg.norm(cB - cA))
+    u = np.array(rng.choice(dirs), dtype=float)
+    if rng.random() < 0.3:
+        u = u + 0.3 * np.array([rng.gauss(0, 1) for _ in range(3)])
+        u /= np.linalg.norm(u)
+    if float(u @ (cB - cA)) < 0:
+        u = -u
+    g = -B.support(-u) - A.support(u)
+    k = rng.choice(ks) if ks else rng.choice((2, 5, 20, 100, 400)) * rng.choice((1, -1))
+    return Body(B.spec, B.M, B.t + (k * delta_lat - g) * u, B.margin, B.cls), u
 
 
 def gen_scenes(rng, n, rounds=True):
@@ -402,7 +463,7 @@ def inside_depth(spec, p, margin=0):
     return d + margin if d >= 0 else -1.0
 
 
-def deep_overlap(A, B, cert, delta_lat):
+def deep_overlap(A, B, cert, delta_lat, normal=None):
     """is there a point at least delta_lat inside both bodies? (sufficient test over a few candidate points)"""
     cA = A.t + A.R @ center_local(A.spec)
     cB = B.t + B.R @ center_local(B.spec)
@@ -411,13 +472,37 @@ def deep_overlap(A, B, cert, delta_lat):
         a0 = sum(w * np.array(v, dtype=float) for w, v in zip(cert["wa"], cert["VA"])) / cert["W"]
         b0 = sum(w * np.array(v, dtype=float) for w, v in zip(cert["wb"], cert["VB"])) / cert["W"]
         cands.append(0.5 * (a0 + b0))
+    if normal is not None:
+        # candidate witnesses near the contact region: midpoints between the two extreme points along the
+        # shift direction, proposed by the library's own support mappings (any candidate is then verified by
+        # the independent depth bounds below, so a wrong proposal cannot create a false claim)
+        try:
+            u = np.asarray(normal, dtype=float)
+            wa = np.asarray(A.build(IDENT).support_function(np.ascontiguousarray(u)), dtype=float)
+            wb = np.asarray(B.build(IDENT).support_function(np.ascontiguousarray(-u)), dtype=float)
+            for lam in (0.5, 0.35, 0.65):
+                cands.append(lam * wa + (1 - lam) * wb)
+            for q in (wa, wb):
+                cands.append(q - 0.5 * float((wa - wb) @ u) * u * (1 if q is wa else -1))
+        except Exception:
+            pass
     best = -1e9
     for p in cands:
         best = max(best, min(inside_depth(A.spec, A.to_local(p), A.margin), inside_depth(B.spec, B.to_local(p), B.margin)))
+    if best < delta_lat:
+        # scan the segment between the centres (shallow overlaps): bisection-free, 64 samples then refine
+        ts = np.linspace(0.0, 1.0, 65)
+        f = lambda t: min(inside_depth(A.spec, A.to_local(cA + t * (cB - cA)), A.margin),
+                          inside_depth(B.spec, B.to_local(cA + t * (cB - cA)), B.margin))
+        vals = [f(t) for t in ts]
+        k = int(np.argmax(vals))
+        lo, hi = ts[max(k - 1, 0)], ts[min(k + 1, 64)]
+        for t in np.linspace(lo, hi, 17):
+            best = max(best, f(t))
     return bool(best >= delta_lat)
 
 
-def measure_bool(rid, A, B, lift, fname, call, delta, clsA=None, clsB=None, proxy=True):
+def measure_bool(rid, A, B, lift, fname, call, delta, clsA=None, clsB=None, proxy=True, normal=None):
     s = lift[0]
     L = scene_L(A, B, lift)
     cert = exact_certificate(A, B)
@@ -434,8 +519,8 @@ def measure_bool(rid, A, B, lift, fname, call, delta, clsA=None, clsB=None, prox
     if cert:
         rec.update(cert)
         rec["G"] = G
-    rec["deep"] = deep_overlap(A, B, cert, dl)
-    _, fg = float_flags(A, B, 100 * dl / 10)     # float gap >= 100*... see float_flags: threshold 10*arg -> gap >= delta*100/... 
+    rec["deep"] = deep_overlap(A, B, cert, dl, normal)
+    _, fg = float_flags(A, B, dl * 1.5 / 10, extra=normal)     # gap >= 1.5 delta along some candidate normal
     rec["floatGap"] = bool(fg)
     ca, cb = A.build(lift, clsA), B.build(lift, clsB)
     if proxy:
